@@ -211,7 +211,7 @@ impl Check for C05 {
         let fs = SimFs::new(&io);
         let _g = fs.install();
         fs.put(SRC, text.clone().into_bytes());
-        let lib = match guard(|| LefLibrary::open(SRC)) {
+        let lib = match guard(|| LefLibrary::open(fs.sp(SRC))) {
             Err(_) => {
                 out.probes.hit("reader_panicked_on_generated_text(C11)");
                 return super::finish(out, &io, &wt, 0, cfg, 0, false);
@@ -260,7 +260,7 @@ impl Check for C05 {
             }
             Ok(Ok(s)) => s,
         };
-        let reread = |path: &str, what: &str, out: &mut RunOut| match guard(|| LefLibrary::open(path)) {
+        let reread = |path: &str, what: &str, out: &mut RunOut| match guard(|| LefLibrary::open(fs.sp(path))) {
             Err(p) => out.violation = Some(panic_violation(&format!("LefLibrary::open({})", what), &p, art(json!({"written_text": truncate(&s0, 6000)})))),
             Ok(Err(e)) => out.violation = Some(v("reread-error", format!("{}:{}", what, lef_err_sig(&e)), format!("the written text is rejected by the reader: {}", truncate(&format!("{:?}", e), 400)), json!({"written_text": truncate(&s0, 6000)}))),
             Ok(Ok(l2)) => {
@@ -295,7 +295,7 @@ impl Check for C05 {
         let create_err = cfg == Cfg::Terminal && io.borrow_mut().ftape.chance(1, 12);
         fs.plan(OUT, FilePlan { write: wpol.clone(), read: rpol.clone(), create_err: if create_err { Some(std::io::ErrorKind::PermissionDenied) } else { None }, ..Default::default() });
         let before = io.borrow().errors_returned.len();
-        match guard(|| lib.save(OUT)) {
+        match guard(|| lib.save(fs.sp(OUT))) {
             Err(p) => out.violation = Some(panic_violation("LefLibrary::save", &p, art(Value::Null))),
             Ok(Err(e)) => {
                 let fired = io.borrow().errors_returned.len() > before;
